@@ -2,8 +2,9 @@
 # Builds the framework from files on disk only (offline).
 set -e
 export GOFLAGS=-mod=mod GOPROXY=off GOSUMDB=off GOTOOLCHAIN=local
-cd /verif
+V="$(cd "$(dirname "$0")" && pwd)"
+cd "$V"
 mkdir -p bin evidence/replays
-(cd cmd/simgen && go1.26.8 build -o /verif/bin/simgen .)
-if [ -d cmd/verifcheck ] && ls cmd/verifcheck/*.go >/dev/null 2>&1; then (cd cmd/verifcheck && go1.26.8 build -o /verif/bin/verifcheck .); fi
+(cd cmd/simgen && go1.26.8 build -o "$V/bin/simgen" .)
+if [ -d cmd/verifcheck ] && ls cmd/verifcheck/*.go >/dev/null 2>&1; then (cd cmd/verifcheck && go1.26.8 build -o "$V/bin/verifcheck" .); fi
 echo setup ok
